@@ -26,7 +26,7 @@ import (
 var scanned = map[string][]string{
 	"src/build/incrementality.go": {"ruleHash", "hashMap", "hashBool", "hashOptionalBool", "RuleHash"},
 	"src/core/build_target.go": {"BuildTarget.DeclaredDependencies", "BuildTarget.DeclaredOutputNames", "BuildTarget.DeclaredNamedOutputs",
-		"BuildTarget.DeclaredOutputs", "BuildTarget.allBuildInputs", "BuildTarget.AllSources", "BuildTarget.AllData", "BuildTarget.getCommand",
+		"BuildTarget.DeclaredOutputs", "BuildTarget.allBuildInputs", "BuildTarget.AllData", "BuildTarget.getCommand",
 		"BuildTarget.GetCommand", "BuildTarget.GetTestCommand", "BuildTarget.IsTest"},
 	"src/core/build_label.go": {"BuildLabel.String", "BuildLabel.Less"},
 }
